@@ -490,6 +490,7 @@ def run(chk, n_random, masks_files, maxlen):
         elif len(vm_reqs) < (160 if chk.tier == "quick" else 800) and len(text) < 200:
             vm_reqs.append((1, [counts_wire(gcount), text, base, ops]))
             vm_reps.append(model)
+    stratum_store_unavailable(chk)
     chk.traces += len(cases)
     chk.extra.setdefault("strata", {}).update(counts)
     chk.extra["filter_masks_covered"] = f"{len(covered_masks)}/64 (blank/non-blank over 3 positions of P x 3 positions of G)"
@@ -497,6 +498,64 @@ def run(chk, n_random, masks_files, maxlen):
     chk.vm_checked += n
     if not ok:
         chk.disagree(dict(kind="extraction-vs-vm_compute"), "extracted oracle", log, where="vm_compute cross-check")
+
+
+def stratum_store_unavailable(chk):
+    """the policy file is briefly missing while a load is attempted: that load raises before anything is read, so
+    the view in memory is still the filtered subset and save_policy must go on refusing once the file is back.
+    (Different from the listed finding, where the failing load raises AFTER the adapter has started reading.)
+    Implementation only; SPEC = flag still set, save refused, file bytes unchanged."""
+    full = "p, alice, data1, read\np, bob, data2, write\ng, alice, admin\ng, bob, admin\ng2, data1, data_group\np2, alice, read\n"
+    n = 0
+    for first in ([1, ["alice"], []], [1, [], ["bob"]], [1, ["", "data2"], ["alice"]]):
+        for attempt in ("load_policy", "load_filtered_policy(None)", "load_filtered_policy(empty)", "load_filtered_policy(other)",
+                        "load_increment_filtered_policy(other)"):
+            with tempfile.TemporaryDirectory(prefix="c12_") as d:
+                sut = Sut(d, full, 2)
+                r0 = sut.apply(first)
+                before = sut.observe()
+                hidden = sut.path + ".away"
+                os.rename(sut.path, hidden)
+                try:
+                    if attempt == "load_policy":
+                        r1 = sut.apply([0])
+                    elif attempt == "load_filtered_policy(None)":
+                        try:
+                            sut.e.load_filtered_policy(None)
+                            r1 = [0, []]
+                        except Exception as ex:  # noqa
+                            r1 = [999, classify_exception(ex)]
+                    elif attempt == "load_filtered_policy(empty)":
+                        r1 = sut.apply([1, [], []])
+                    elif attempt == "load_filtered_policy(other)":
+                        r1 = sut.apply([1, ["bob"], []])
+                    else:
+                        r1 = sut.apply([2, ["bob"], []])
+                finally:
+                    os.rename(hidden, sut.path)
+                mid = sut.observe()
+                r2 = sut.apply([3])
+                after = sut.observe()
+                n += 1
+                chk.count(("store-unavailable", json.dumps(first), attempt))
+                case = dict(kind="store-unavailable", first_load=first, attempt=attempt, file=full, gcount=2)
+                what = None
+                if r0 != [0, []] or before[0] != 1:
+                    what = "harness: the first filtered load did not succeed"
+                elif r1[0] != 999:
+                    what = "a load from a missing policy file did not raise"
+                elif mid[0] != 1:
+                    what = "a load that raised before reading anything cleared is_filtered(): the partial view is no longer guarded"
+                elif attempt == "load_policy" and mid[1] != before[1]:
+                    # (load_filtered_policy clears memory before it asks the adapter, by design; only load_policy
+                    #  promises - C11 - to leave memory as it was)
+                    what = "load_policy raised before reading anything but changed the loaded policy"
+                elif r2 != [999, ERR["EFilteredSave"]] or after[3] != before[3]:
+                    what = "save_policy wrote a partial view over the store after a load that raised before reading anything"
+                if what:
+                    chk.spec_fail(case, dict(first=r0, attempt=r1, flag_after_attempt=mid[0], save=r2,
+                                             file_changed=after[3] != before[3]), "flag set, save refused, file unchanged", what)
+    chk.extra.setdefault("strata", {})["store_unavailable"] = n
 
 
 def replay(chk):
